@@ -203,6 +203,27 @@ func buildPlan(id string, pinned map[string]string, tier string) *Plan {
 			"assembly E2 kernels on amd64 (e2_amd64.s): outside (C09)"}
 		p.Note = "Every tower operation under contract equals the product/sum computed by schoolbook convolution in R[X]/(X^k - nr) from the documented polynomials; sparse products equal the generic product applied to the operand with the documented zero/one coordinates; all alias partitions, including (where the contract says 'option interior') operands pointing into the receiver."
 		return p
+	case "C09":
+		// Bounded (exploration): go/ssa has no model of assembly, so no contract can be proved about those bodies. What
+		// stands in: every assembly routine that has an assumed contract - the contract its portable Go counterpart
+		// is PROVED to satisfy under C01 / C06 - is run against that contract, in every alias partition and in both
+		// ADX configurations.
+		p := &Plan{ID: id, AsmStandins: true}
+		for _, pk := range fps {
+			p.Units = append(p.Units, Unit{Pkg: pk, Tags: "", Groups: []string{"field", "conv"}, AssumedAsmOnly: true})
+		}
+		for _, t := range towers {
+			p.Units = append(p.Units, Unit{Pkg: "./" + t.Rel, Tags: "", Groups: []string{"tower"}, AssumedAsmOnly: true})
+		}
+		p.Trusted = []string{"the Go toolchain's assembler and the test harness (go test -overlay on /repo's working tree)",
+			"the contract evaluator of gcv (checked against the portable code by `gcv replay-selftest`)",
+			"the portable Go counterparts satisfy the same contracts for all inputs: proved under C01 (fields) and C06 (E2), purego build"}
+		p.Assumptions = []string{"bounded: 160 inputs per routine, alias partition and configuration; agreement outside the tried inputs is not shown",
+			"the ADX switch is the package variable supportAdx (set to false for the second configuration); AVX-512 paths are taken as the host CPU offers them (this host: ADX and AVX-512 present)"}
+		p.NotCovered = []string{"assembly routines without an assumed contract: the vector kernels (addVec, subVec, scalarMulVec, sumVec, innerProdVec, mulVec), E2 mulAdxE2 / squareAdxE2 / mulNonRes*, the AVX-512 FFT kernels, Poseidon2 and SIS kernels",
+			"panic-or-not behaviour, arm64 assembly, CPUs without ADX (the non-ADX path is reached through the package switch only)"}
+		p.Note = "Bounded stand-in, not a proof. For the 18 multi-limb fields: mul, fromMont, reduce, MulBy3/5/13, Butterfly; for the E2 of bn254 and bls12-381: addE2, subE2, doubleE2, negE2. Each assembly routine is called on boundary and random inputs in every alias partition, once with ADX and once with supportAdx = false, and the clauses of the contract that the portable Go routine is proved to satisfy are evaluated on its outputs: on the tried inputs the CPU-specific path and the portable path return the same results."
+		return p
 	case "C10":
 		p := &Plan{ID: id}
 		for _, c := range fftCfgs("/repo") {
